@@ -416,7 +416,9 @@ def decide(chk, prop, tlc_jobs, variants, strict_counts=True, sample_filter=None
     records = []
     best = []
     for job, key, r in zip(jobs, keys, res):
-        compare_replay(chk, prop, key, groups[key], r, strict_counts)
+        # execution counts are schedule-independent only when nothing fails (with a failing command, which commands had begun
+        # before the failure depends on the order of the leaf loop, which the property leaves free)
+        compare_replay(chk, prop, key, groups[key], r, strict_counts and not key[2])
         if r.get("trace"):
             records.append(r["trace"])
         direct, listed, fails, hist, ignored, nulls, late = key
